@@ -351,7 +351,7 @@ func opsLine(ops []op) string {
 
 // structure check with the harness's own walker: the file tiles, the layout fits
 // the first chunk, VP8X flags say which chunks are present, payloads are the inputs.
-func walkCheck(file []byte, s *shadow) string {
+func walkCheck(file []byte, s *shadow, maskCanvas bool) string {
 	cs, ok := muxh.WalkFile(file)
 	if !ok || len(cs) == 0 {
 		return "file does not tile into chunks / RIFF size wrong"
@@ -429,7 +429,7 @@ func walkCheck(file []byte, s *shadow) string {
 	cw := 1 + int(cs[0].Data[4]) + int(cs[0].Data[5])<<8 + int(cs[0].Data[6])<<16
 	ch := 1 + int(cs[0].Data[7]) + int(cs[0].Data[8])<<8 + int(cs[0].Data[9])<<16
 	ecw, ech := s.canvas()
-	if cw != ecw || ch != ech {
+	if !maskCanvas && (cw != ecw || ch != ech) {
 		return fmt.Sprintf("VP8X canvas %dx%d, put in %dx%d", cw, ch, ecw, ech)
 	}
 	return ""
@@ -662,6 +662,41 @@ func (g *gen) wild() []op {
 	return ops
 }
 
+// setter-after-add histories: the state that decides the layout (animated or not, dispose,
+// duration) is changed by SetFrameDuration / SetFrameDisposeMode after AddFrame.
+func (g *gen) setterOrder() []op {
+	it := g.item()
+	af := func(it *muxh.PoolItem, hasOpts bool, dur, ox, oy int) op {
+		return op{K: "AF", Data: it.Data, Item: it, HasOpts: hasOpts, Dur: dur, OX: ox, OY: oy, Blend: g.rng.Intn(2), Disp: g.rng.Intn(2)}
+	}
+	anim := []op{{K: "LC", V: g.rng.Range(1, 9)}, {K: "BG", ID: uint32(g.rng.U64()) | 1}}
+	var ops []op
+	switch g.rng.Intn(7) {
+	case 0: // still by AddFrame, animated by a later SetFrameDuration
+		ops = append([]op{af(it, g.rng.Bool(), 0, 0, 0), {K: "DU", I: 0, V: g.rng.Pick(1, 120, 0xFFFFFF, 1<<24)}}, anim...)
+	case 1: // the same with an offset (legal only because the frame becomes animated)
+		ops = append([]op{af(it, true, 0, 2*g.rng.Range(1, 4), 2*g.rng.Range(0, 3)), {K: "DU", I: 0, V: g.rng.Pick(1, 50)}}, anim...)
+	case 2: // animated by AddFrame, still after SetFrameDuration(0, 0 or negative)
+		ops = append([]op{af(it, true, g.rng.Pick(1, 40), 0, 0), {K: "DU", I: 0, V: g.rng.Pick(0, -5)}}, anim...)
+	case 3: // duration set, reset, set again; dispose toggled
+		ops = []op{af(it, true, 30, 0, 0), {K: "DU", I: 0, V: 0}, {K: "DM", I: 0, V: 1}, {K: "DU", I: 0, V: g.rng.Pick(7, 70)}, {K: "DM", I: 0, V: g.rng.Intn(2)}}
+		ops = append(ops, anim...)
+	case 4: // two frames, both durations 0 (animated because of the count), then one set
+		it2 := g.item()
+		ops = []op{af(it, true, 0, 0, 0), af(it2, g.rng.Bool(), 0, 0, 0), {K: "DU", I: g.rng.Intn(2), V: g.rng.Pick(0, 9)}, {K: "DM", I: g.rng.Intn(2), V: 1}}
+		ops = append(ops, anim...)
+	case 5: // setters before any frame exists are no-ops; then a still
+		ops = []op{{K: "DU", I: 0, V: 50}, {K: "DM", I: 0, V: 1}, af(it, g.rng.Bool(), 0, 0, 0)}
+		ops = append(ops, anim...)
+	default: // metadata set, cleared with nil, set again around a still / animated frame
+		ops = []op{{K: "EX", Data: g.rng.Bytes(5)}, af(it, true, g.rng.Pick(0, 25), 0, 0), {K: "EX", Data: nil}, {K: "AC", ID: mux.FourCCXMP, Data: g.blob()}, {K: "IC", Data: g.blob()}, {K: "AC", ID: mux.FourCCICCP, Data: nil}}
+	}
+	if g.rng.Intn(3) == 0 {
+		ops = append(ops, g.metaOps()...)
+	}
+	return ops
+}
+
 // boundary histories: one frame / few frames at each boundary class
 func (g *gen) boundary() []op {
 	it := g.item()
@@ -709,14 +744,49 @@ func main() {
 				ops, kind = g.cleanAnim(), "anim"
 			case r < 50:
 				ops, kind = g.cleanStill(), "still"
-			case r < 65:
+			case r < 62:
 				ops, kind = g.boundary(), "boundary"
+			case r < 74:
+				ops, kind = g.setterOrder(), "setter-order"
 			default:
 				ops, kind = g.wild(), "wild"
 			}
 			evalCase(c, ops, kind)
 		}
 	})
+}
+
+// maskCanvas removes the canvas token ("] WxH a=") of a rendered view.
+func maskCanvasOf(v string) string {
+	i := strings.LastIndex(v, "] ")
+	j := strings.Index(v, " a=")
+	if i < 0 || j < i {
+		return v
+	}
+	return v[:i+2] + "*x*" + v[j:]
+}
+
+// okChecks: everything the property demands of a successfully assembled file.
+func okChecks(file []byte, dline string, dm *mux.Demuxer, sh *shadow, maskCanvas bool) string {
+	if w := walkCheck(file, sh, maskCanvas); w != "" {
+		return "container structure: " + w
+	}
+	if dline == "panic" || dline == "err" {
+		return "demuxer " + dline + " on the assembled file"
+	}
+	got, want := demuxView(dm), sh.view()
+	if maskCanvas {
+		got, want = maskCanvasOf(got), maskCanvasOf(want)
+	}
+	if got != want {
+		return "mux->demux differs: got " + got + " want " + want
+	}
+	if !maskCanvas {
+		if p := parserCheck(file, dm, sh); p != "" {
+			return p
+		}
+	}
+	return ""
 }
 
 func evalCase(c *Ctx, ops []op, kind string) {
@@ -787,17 +857,15 @@ func evalCase(c *Ctx, ops []op, kind string) {
 		}
 		return
 	}
-	fail := ""
-	if w := walkCheck(file, sh); w != "" {
-		fail = "container structure: " + w
-	} else if dline == "panic" || dline == "err" {
-		fail = "demuxer " + dline + " on the assembled file"
-	} else if got, want := demuxView(dm), sh.view(); got != want {
-		fail = "mux->demux differs: got " + got + " want " + want
-	} else if p := parserCheck(file, dm, sh); p != "" {
-		fail = p
+	if cls == "still-canvas" {
+		// the known finding covers only the canvas size itself (and the parsers' disagreement about it):
+		// everything else of the view must still come back
+		if fail := okChecks(file, dline, dm, sh, true); fail != "" {
+			c.Violate("general", "(still picture with explicit canvas) "+fail, replay)
+			return
+		}
 	}
-	if fail != "" {
+	if fail := okChecks(file, dline, dm, sh, false); fail != "" {
 		c.Violate(cls, fail, replay)
 		return
 	}
